@@ -47,6 +47,11 @@ def _fix_gzip_time():
 	gzip.time = T
 
 
+def gzipmod_compress(data):
+	import gzip
+	return gzip.compress(data, mtime=0)
+
+
 def blocks(rng, tier):
 	yield b''
 	for b in range(256):
@@ -59,6 +64,12 @@ def blocks(rng, tier):
 		yield (bytes(rng.randrange(256) for _ in range(509)) * (n // 509 + 1))[:n]
 		yield (b'a' * 999 + b'b') * (n // 1000) + b'c' * (n % 1000)
 	yield bytes(range(256)) * 20
+	# content that is itself a coded stream, or only begins like one (a .gz / .zz file served with a content coding on top)
+	yield gzipmod_compress(b'an inner gzip stream ' * 20)
+	yield zlib.compress(b'an inner zlib stream ' * 20)
+	yield b'\x1f\x8b\x08' + b'not a gzip stream at all'
+	yield b'\x1f\x8b'
+	yield b'\x78\x9c' + b'not a zlib stream'
 
 
 def pieces_of(rng, data):
@@ -94,8 +105,12 @@ def part(rng, b):
 	hs = []
 	for _ in range(rng.choice((0, 1, 1, 2, 3))):
 		hs.append((rng.choice(('Content-Type', 'Content-Disposition', 'X-Part', 'Content-ID', 'Content-Transfer-Encoding')), rng.choice(('text/plain', 'application/octet-stream', 'form-data; name="f"; filename="a.bin"', 'binary', '<1@x>', 'v'))))
-	k = rng.randrange(7)
-	if k == 0:
+	if rng.random() < 0.12:
+		hs.append(('Content-Encoding', rng.choice(('gzip', 'deflate', 'identity'))))      # a part labelled with a coding: its content is kept as it is
+	k = rng.randrange(8)
+	if k == 7:
+		c = gzipmod_compress(b'part content ' * rng.randrange(1, 30))
+	elif k == 0:
 		c = b''
 	elif k == 1:
 		c = bytes(rng.randrange(256) for _ in range(rng.choice((1, 10, 200))))
